@@ -1538,8 +1538,8 @@ def check_rotation(case, rec):
 # ---------------------------------------------------------------------------
 
 SUBS = [
-    Sub("convert", gen_convert, check_convert, quick=1600, thorough=40000, shards_quick=2, shards_thorough=8),
-    Sub("euclid_t", gen_euclid_t, check_euclid_t, quick=800, thorough=16000, shards_quick=2, shards_thorough=4),
+    Sub("convert", gen_convert, check_convert, quick=1200, thorough=40000, shards_quick=2, shards_thorough=8),
+    Sub("euclid_t", gen_euclid_t, check_euclid_t, quick=600, thorough=16000, shards_quick=2, shards_thorough=4),
     Sub("cov", gen_cov, check_cov, quick=900, thorough=20000, shards_quick=3, shards_thorough=8),
     Sub("srf", gen_srf, check_srf, quick=160, thorough=5000, shards_quick=2, shards_thorough=4, shrink_quick=False),
     Sub("estimator", gen_estimator, check_estimator, quick=1200, thorough=30000, shards_quick=3, shards_thorough=8),
